@@ -523,6 +523,12 @@ func (g *vcgen) special(v ssa.Value, fn *ssa.Function, args []string, c *ssa.Cal
 		return nil, true
 	case "(*sync.Cond).Wait":
 		if mon, obj := g.monitorFor(c.Args[0], true); mon != nil {
+			if mon.Waitcond != nil {
+				// a thread may park only while its wait condition is false (otherwise nobody is obliged to wake it)
+				if w, err := g.monEnv(mon, obj, g.st, nil).EvalBool(mon.Waitcond); err == nil {
+					g.obligeAt("monitor/park", mon.Type, g.callSite("Wait"), "(not "+w+")", "Wait() is only called while the wait condition is false")
+				}
+			}
 			g.monUnlock(mon, obj, g.callSite("Wait"))
 			g.monLock(mon, obj)
 		} else {
